@@ -24,9 +24,11 @@ def run(ctx):
     for i in range(SHARDS):
         jobs.append(['aggr', seed, i, SHARDS, n_aggr])
     for i in range(SHARDS):
-        jobs.append(['calr', seed, i, SHARDS, n_calr])
+        jobs.append(['calr', seed, i, SHARDS, n_calr, 0])
     for i in range(4):
         jobs.append(['shape', seed, i, 4, ls, n_shape])
+    # calendar chains whose left links switch to algorithms the build may not support (own process, see memo below)
+    jobs.append(['calr', seed, 100, 1, n_calr // 4, 1])
     # memoised output: sequences without failing calls, and with failing calls (default hash recycle pool and pool size 0);
     # separate processes so that a sanitizer abort in one of them does not hide the others
     jobs.append(['memo', seed, 0, 1, n_memo, 0, -1])
